@@ -1,7 +1,7 @@
 """C08 -- an accepted field value can never inject fields or split the paragraph."""
 import ast
 
-from .. import rx, strlang, cfg
+from .. import rx, strlang, cfg, normalize
 from ..core import AnalysisError, norm, walk_no_nested
 from .deb822model import Model, KEY_RE
 
@@ -145,7 +145,8 @@ def r2_same_line_notion(rep, src, M):
         g = src.func(site)
         rep.saw_func(g)
         param = g.params()[1]
-        calls = _split_calls(g.node, param)
+        gnode, _inl = normalize.inline_helpers(g)          # private helpers that take the input over belong to the reader
+        calls = _split_calls(gnode, param)
         if not calls:
             raise AnalysisError('%s: no line splitting of whole-text input found' % site)
         for c in calls:
